@@ -272,17 +272,20 @@ func checkStubs(c *Case, rec *recorder, ta, tb []*html.Node) (sig, obs, exp stri
 				}
 				if p == "" {
 					consume(mt, true, "") // the minifier may or may not be consulted for an empty payload
+					if elemClass(tag) != "html" && present && ov == at.Val {
+						continue // not a known HTML element: left alone
+					}
 					if present && asciiTrim(ov) != "" {
 						fail("passthrough-changed:"+cls+":empty", ov, "(absent or empty)")
 						return
 					}
 					continue
 				}
+				if elemClass(tag) != "html" && present && asciiTrim(ov) == asciiTrim(at.Val) {
+					continue // not a known HTML element: left alone, which is fine
+				}
 				called := consume(mt, true, p)
 				if !called {
-					if elemClass(tag) != "html" && present && asciiTrim(ov) == asciiTrim(at.Val) {
-						continue // not a known HTML element: left alone, which is fine
-					}
 					if near := nearest(mt, true); near != "" {
 						fail("stub-payload-changed:"+cls+":"+valueDiffKind(p, near), near, p)
 						return
